@@ -14,3 +14,4 @@ import OapiVerif.Props.C08
 import OapiVerif.Props.C19
 import OapiVerif.Props.C20
 import OapiVerif.Props.C18
+import OapiVerif.Props.C11
